@@ -35,13 +35,15 @@ func zzExpPeers(g *zzGen, k int) []netv1.NetworkPolicyPeer {
 		return []netv1.NetworkPolicyPeer{{PodSelector: zzSel("app", "b"), NamespaceSelector: &metav1.LabelSelector{
 			MatchLabels:      map[string]string{"env": "prod"},
 			MatchExpressions: []metav1.LabelSelectorRequirement{{Key: "tier", Operator: metav1.LabelSelectorOpNotIn, Values: []string{"restricted"}}}}}}
+	case 11: // any namespace, pod selector made only of an expression
+		return []netv1.NetworkPolicyPeer{{NamespaceSelector: &metav1.LabelSelector{}, PodSelector: in("app", "q", "other")}}
 	case 9: // single-value In (equivalent to matchLabels) in another namespace set
 		return []netv1.NetworkPolicyPeer{{NamespaceSelector: zzSel("env", "dev"), PodSelector: in("app", "q")}}
 	}
 	return nil // no peers: everything, incl. external
 }
 
-const zzNExpPeers = 11
+const zzNExpPeers = 12
 
 // hypothetical pod H
 type zzHyp struct {
@@ -406,4 +408,32 @@ func ZZ_C06_C07_SameRuleTwoNamespaces() {
 		return
 	}
 	zzC07CheckWorkloads(g, ca, ing, x, [][2]string{{"ns1", "a"}, {"ns2", "c"}})
+}
+
+// one policy selecting two workloads that declare the same port name with different numbers, exposed to the whole
+// cluster (or to a representative peer) on that name: each workload's entry must carry its own number
+func ZZ_C06_C07_NamedPortTwoWorkloads() {
+	g := &zzGen{W: &zzWorld{}, Book: &zzCidrBook{}}
+	h1, h2 := zzPortVar("a.http"), zzPortVar("b.http")
+	g.addPod("ns1", "a", map[string]string{"app": "a"}, []corev1.ContainerPort{{Name: "http", ContainerPort: h1, Protocol: corev1.ProtocolTCP}})
+	g.addPod("ns1", "b", map[string]string{"app": "b"}, []corev1.ContainerPort{{Name: "http", ContainerPort: h2, Protocol: corev1.ProtocolTCP}})
+	g.addNs("ns1", map[string]string{"env": "prod"})
+	var peers []netv1.NetworkPolicyPeer
+	switch vf_Choose("peers", 3) {
+	case 0:
+		peers = []netv1.NetworkPolicyPeer{{NamespaceSelector: &metav1.LabelSelector{}}}
+	case 1:
+		peers = []netv1.NetworkPolicyPeer{{NamespaceSelector: &metav1.LabelSelector{}, PodSelector: zzSel("app", "q")}}
+	}
+	np := zzNetpolObj("ns1", "np1", netv1.NetworkPolicySpec{PodSelector: metav1.LabelSelector{},
+		Ingress: []netv1.NetworkPolicyIngressRule{{From: peers, Ports: []netv1.NetworkPolicyPort{zzPortName(corev1.ProtocolTCP, "http")}}}}).NetworkPolicy
+	g.addNP(np)
+	x := zzProbeX()
+	ca := NewConnlistAnalyzer(WithMuteErrsAndWarns(), WithExposureAnalysis())
+	_, _, err := ca.connsListFromParsedResources(g.Objs)
+	vf_Assert(err == nil, "exposure-analysis-succeeds")
+	if err != nil {
+		return
+	}
+	zzC07CheckWorkloads(g, ca, true, x, [][2]string{{"ns1", "a"}, {"ns1", "b"}})
 }
